@@ -20,19 +20,26 @@ from props import c02
 RULE = ('a case = 1-3 synthetic data sets of one format (MVF v4 in-memory telstate + npy chunk store, HDF5 v3, v2, v1; '
         'also v3+v4 mixtures) with 2-7 dumps each, distinct start times (sometimes equal: refused), equal dump periods '
         '(sometimes different: must be refused), 1-3 target events per part drawn from a pool of 6 targets incl. shared '
-        'aliases and a same-name-different-target pair, 1-4 activity events, 0-3 labels, float / string / int sensors '
-        'and directly assigned int arrays each present in a random subset of the parts, sometimes a part with another '
-        'subarray or spectral window; concatenated in a random input order through katdal.open([...]) or '
+        'aliases and a same-name-different-target pair, 1-4 activity events, 0-3 labels, float / string / int / bool '
+        '(now and then uint8) sensors and directly assigned int arrays each present in a random subset of the parts, '
+        'sometimes parts of another subarray (other antenna, same products in another order, same antenna names at '
+        'another position) and / or spectral window (centre frequency, channel width, product, band), also several of '
+        'both; concatenated in a random input order through katdal.open([...]) or '
         'ConcatenatedDataSet([...]); then 2-4 histories of 1-6 select() calls of C02\'s generator (all criterion kinds '
         'and argument forms) with, after every call, the masks of every part compared with the translated call on '
         'its stand-alone twin, a second-stage index (int / slice / mask / sorted list per axis, spanning part '
         'boundaries) on timestamps / vis / flags / weights and the selected values of every sensor; scans() / '
-        'compscans() run to exhaustion.  Non-trivial: at least 2 parts opened and a selection that keeps dumps of at '
+        'compscans() run to exhaustion; on concatenations with several subarrays / windows the same after '
+        'select(subarray=s, spw=w) for every pair (s, w) plus a fixed pol / ants / inputs / corrprods / freqrange history.  Non-trivial: at least 2 parts opened and a selection that keeps dumps of at '
         'least two parts; distinct by the generated case (seed)')
 ASSUMPTIONS = ['parts of a case cover disjoint time ranges (compatible data sets); overlapping parts are not generated',
-               'select histories are run on concatenations with one merged subarray and spectral window (C02\'s model); '
-               'concatenations with several subarrays / spectral windows are compared at open level (merged lists, '
-               'index sensors, default selection spw=0 subarray=0, data under the default selection)',
+               'select histories on concatenations with several merged subarrays / spectral windows start with '
+               'select(subarray=s, spw=w) and do not name spw / subarray again (Model/ConcatMulti.v); v3+v4 mixtures (no '
+               'common dump grid) get a model-free battery of index-free criteria against the stand-alone parts',
+               'subarrays / spectral windows are identified by their public attributes (antenna descriptions and '
+               'correlation products in order; centre_freq, channel_width, num_chans, sideband, band, product, bandwidth)',
+               'a sensor of an unsigned integer type missing from a part: open finding C19-F4; once repaired any single '
+               'filler value over the absent parts is accepted',
                'parts whose subarrays / spectral windows differ in the NUMBER of products / channels are not generated '
                '(the v4 indexers of such a concatenation raise on any data access)',
                'second-stage indices are restricted to the forms C05 proves for ConcatenatedLazyIndexer: no negative '
@@ -48,7 +55,7 @@ OBS = ['Observation/subarray', 'Observation/spw', 'Observation/target', 'Observa
        'Observation/spw_index', 'Observation/target_index', 'Observation/scan_state', 'Observation/label',
        'Observation/scan_index', 'Observation/compscan_index']
 STATES_RAW = ['slew', 'track', 'scan', 'stop']
-SHORTS = ['f', 's', 'i']
+SHORTS = ['f', 's', 'i', 'b', 'u']
 
 
 # ---------------------------------------------------------------------------------------------------------------
@@ -86,6 +93,15 @@ def gen_case(rng):
     dts = [2.0] * k
     ants = [('m000', 'm001')] * k
     cfv = [0] * k
+    var = [{} for _ in range(k)]
+    h5ok = fmts[0] != 'v1' and not mixed
+
+    def some_parts():
+        """a non-empty proper subset of the parts"""
+        while True:
+            pick = [rng.random() < 0.5 for _ in range(k)]
+            if any(pick) and not all(pick):
+                return [i for i in range(k) if pick[i]]
     if k >= 2 and special < 0.05:
         kind = 'tie'
         starts[1] = starts[0]
@@ -95,14 +111,41 @@ def gen_case(rng):
     elif k >= 2 and special < 0.11:
         kind = 'period'
         dts[rng.randrange(k)] = 4.0
-    elif k >= 2 and special < 0.18 and not mixed:
+    elif k >= 2 and special < 0.17 and not mixed:
         kind = 'subarray'
         ants[rng.randrange(k)] = ('m000', 'm062')
-    elif k >= 2 and special < 0.25 and not mixed and fmts[0] not in ('v1', 'v2'):
+    elif k >= 2 and special < 0.23 and not mixed and fmts[0] not in ('v1', 'v2'):
         kind = 'spw'
         cfv[rng.randrange(k)] = 1
+    elif k >= 2 and special < 0.30 and h5ok:
+        # the same antennas and the same correlation products, listed in another order: another subarray
+        kind = 'subperm'
+        for i in some_parts():
+            var[i]['perm'] = rng.choice([1, 2, 3])
+    elif k >= 2 and special < 0.34 and h5ok:
+        # the same antenna names and products, one antenna at another position: another subarray
+        kind = 'subdesc'
+        for i in some_parts():
+            var[i]['antdesc'] = 1
+    elif k >= 2 and special < 0.40 and h5ok:
+        # the same centre frequency and channel count; channel width / product / band differ: another spectral window
+        kind = 'spwvar'
+        which = rng.choice([v for v in ('bw', 'prod', 'band') if fmts[0] in c19parts.VARIANTS[v]])
+        for i in some_parts():
+            var[i][which] = 1
+    elif k >= 2 and special < 0.46 and h5ok:
+        # several subarrays AND several spectral windows (not every combination has dumps)
+        kind = 'multi'
+        subv = [{}, {'perm': 1}, {'perm': 2}, {'antdesc': 1}]
+        spwv = [{}, {'bw': 1}] + ([{'prod': 1}, {'band': 1}] if fmts[0] == 'v4' else [])
+        while True:
+            var = [dict(rng.choice(subv), **rng.choice(spwv)) for _ in range(k)]
+            if len({repr(sorted(v.items())) for v in var}) > 1:
+                break
     pool = rng.sample(range(len(c19parts.TARGETS)), rng.randint(2, 4))
     present = {s: [rng.random() < 0.6 for _ in range(k)] for s in SHORTS}
+    if rng.random() >= 0.12:
+        present['u'] = [False] * k      # sensors of an unsigned integer type (open finding C19-F4) only now and then
     arr_present = [rng.random() < 0.5 for _ in range(k)] if rng.random() < 0.2 else [False] * k
     parts = []
     for i in range(k):
@@ -118,11 +161,17 @@ def gen_case(rng):
             sens['s'] = ('s', gen_events(rng, T, ['', 'x', 'y', 'z'], first=rng.random() < 0.8, maxn=2) or [(0, 'x')])
         if present['i'][i]:
             sens['i'] = ('i', gen_events(rng, T, [-1, 0, 3, 5], first=rng.random() < 0.8, maxn=2) or [(0, 3)])
+        if present['u'][i]:
+            sens['u'] = ('u', gen_events(rng, T, [0, 3, 200, 255], first=rng.random() < 0.8, maxn=2) or [(0, 3)])
+        if present['b'][i]:
+            sens['b'] = ('b', gen_events(rng, T, [True, False], first=rng.random() < 0.8, maxn=2) or [(0, True)])
         spec = dict(fmt=fmts[i], T=T, start=starts[i], dt=dts[i], ants=list(ants[i]), F=F, cfv=cfv[i],
                     acts=gen_events(rng, T, STATES_RAW, maxn=3), targets=gen_events(rng, T, pool, maxn=2),
                     labels=gen_events(rng, T, c02.LABELS[1:] + [''], first=rng.random() < 0.7, maxn=2),
                     sens=sens, arrs=({'a': [rng.randint(-3, 9) for _ in range(T)]} if arr_present[i] else {}),
                     seed=rng.randrange(1000))
+        if var[i]:
+            spec['var'] = var[i]
         if mixed:
             # v3 files of the fixture writer carry 10 products for two antennas: give the v4 parts the same ones
             inputs = [a + p for a in spec['ants'] for p in 'hv']
@@ -138,9 +187,70 @@ def gen_case(rng):
 # ---------------------------------------------------------------------------------------------------------------
 # reading a (stand-alone) data set
 
+ANT_IDS = list(c02.ANTS)
+
+
 class Ids:
+    """Value ids.  Subarrays and spectral windows: every unique value of every stand-alone part's sensor is entered as
+    a STRUCTURE (sub_key / spw_key), one entry per occurrence and without comparing them here; wire_194
+    (Model/ConcatIdent.v: Subarray.__eq__ / SpectralWindow.__eq__ as re-read from the source) decides which entries
+    are identical, and the position of the first identical entry is the value id used everywhere else."""
+
     def __init__(self):
-        self.tdesc, self.sub, self.spw, self.strs, self.floats, self.names = [], [], [], [''], [], []
+        self.tdesc, self.strs, self.floats, self.names = [], [''], [], []
+        self.raw = {'sub': [], 'spw': []}
+        self.objs = {'sub': [], 'spw': []}
+        self.canon = None
+
+    def struct_id(self, which, key, obj=None):
+        if self.canon is None:
+            self.raw[which].append(key)
+            self.objs[which].append(obj)
+            return len(self.raw[which]) - 1
+        if key not in self.raw[which]:
+            return -1 - Ids.gid(self.strs, 'unknown %s: %r' % (which, key))
+        return self.canon[which][self.raw[which].index(key)]
+
+    def input_wire(self, label):
+        name, pol = label[:-1], label[-1:]
+        a = ANT_IDS.index(name) if name in ANT_IDS else 100 + Ids.gid(self.strs, 'ant:' + name)
+        return [a, 'hv'.index(pol) if pol in ('h', 'v') else 9]
+
+    def sub_wire(self, key):
+        ants, cps = key
+        return [[Ids.gid(self.strs, 'antenna:' + d) for d in ants], [self.input_wire(a) + self.input_wire(b) for a, b in cps]]
+
+    def spw_wire(self, key):
+        cf, cw, nch, sb, band, prod, bw = key
+        return [Ids.gid(self.floats, cf), Ids.gid(self.floats, cw), nch, sb, Ids.gid(self.strs, 'band:' + band),
+                Ids.gid(self.strs, 'product:' + prod), Ids.gid(self.floats, bw)]
+
+    def finish(self, cs):
+        """The value ids used from here on are the SPEC's: two values are the same iff all their public attributes
+        agree (position of the first such entry).  Against them: katdal's own comparison of the objects (== and hash:
+        what concatenate_categorical merges by) = the property; the model's ids (wire_194) against katdal's = the tie."""
+        out = cs.ctx.model([[194, [[self.sub_wire(k) for k in self.raw['sub']], [self.spw_wire(k) for k in self.raw['spw']]]]])[0]
+        model = {'sub': out[0], 'spw': out[1]}
+        self.canon = {}
+        for which, text in (('sub', 'subarrays'), ('spw', 'spectral windows')):
+            raw, objs = self.raw[which], self.objs[which]
+            self.canon[which] = [raw.index(k) for k in raw]
+            for i in range(len(raw)):
+                for j in range(i):
+                    impl = bool(objs[i] == objs[j]) and hash(objs[i]) == hash(objs[j])
+                    if impl != (raw[i] == raw[j]):
+                        cs.disagree('stage=ident;what=%s_%s' % (which, 'equal_but_not_identical' if impl else 'identical_but_not_equal'),
+                                    impl, model[which][i] == model[which][j],
+                                    ('%s that differ in a public attribute compare equal (and will be merged)' if impl else
+                                     'identical %s do not compare equal (and will not be merged)') % text,
+                                    spec=raw[i] == raw[j], entries=[repr(raw[j]), repr(raw[i])])
+                    elif impl != (model[which][i] == model[which][j]):
+                        cs.disagree('stage=ident;what=%s_eq_vs_model' % which, impl, model[which][i] == model[which][j],
+                                    'the model of %s.__eq__ differs from the implementation' % ('Subarray' if which == 'sub' else 'SpectralWindow'),
+                                    kind='tie', entries=[repr(raw[j]), repr(raw[i])])
+        if out[2] != [NAN, -1, 0, 0, -8888]:
+            cs.disagree('stage=ident;what=dummy_table_vs_model', out[2], [NAN, -1, 0, 0, -8888],
+                        'the dummy values read from dummy_sensor_getter are not nan / -1 / \'\' / False / None', kind='tie')
 
     @staticmethod
     def gid(table, key):
@@ -164,13 +274,25 @@ def vid(ids, v):
     return 5000 + Ids.gid(ids.strs, 'obj:' + str(desc if desc is not None else v))
 
 
+def sub_key(s):
+    """What makes a subarray, read from its public attributes (NOT through katdal's own comparison): the antennas
+    (full descriptions, in order) and the correlation products in order (= the columns of the data)."""
+    return (tuple(str(a.description) for a in s.ants), tuple((str(a), str(b)) for a, b in s.corr_products))
+
+
+def spw_key(w):
+    """What makes a spectral window: every public attribute."""
+    return (float(w.centre_freq), float(w.channel_width), int(w.num_chans), int(w.sideband), str(w.band),
+            str(w.product), float(w.bandwidth))
+
+
 def obs_vid(ids, name, v):
     if name in ('Observation/target',):
         return Ids.gid(ids.tdesc, v.description)
     if name == 'Observation/subarray':
-        return Ids.gid(ids.sub, v._description)
+        return ids.struct_id('sub', sub_key(v), v)
     if name == 'Observation/spw':
-        return Ids.gid(ids.spw, v._description)
+        return ids.struct_id('spw', spw_key(v), v)
     if name == 'Observation/scan_state':
         return c02.STATES.index(str(v))
     if name == 'Observation/label':
@@ -195,9 +317,9 @@ def read_sensor(d, name, ids):
     except KeyError:
         return None
     if isinstance(x, CategoricalData):
-        return ('cat', dtype_code(x.dtype), cd_wire(x, lambda v: vid(ids, v)))
+        return ('cat', dtype_code(x.dtype), cd_wire(x, lambda v: vid(ids, v)), np.dtype(x.dtype).kind if x.dtype is not None else 'O')
     x = np.asarray(x)
-    return ('num', int(x.dtype.kind == 'f'), [vid(ids, v) for v in x.tolist()])
+    return ('num', int(x.dtype.kind == 'f'), [vid(ids, v) for v in x.tolist()], x.dtype.kind)
 
 
 def sensor_names(case):
@@ -327,8 +449,8 @@ def stage_open(cs, parts, twins_info, c, exc, out, names, how):
     if [int(x) for x in c._segments] != m_segs or its != m_ts:
         cs.disagree('stage=open;what=segments_vs_model', [int(x) for x in c._segments], m_segs, '_segments / timestamps differ from the model', kind='tie')
     # merged lists
-    got = dict(subs=[Ids.gid(ids.sub, s._description) for s in c.subarrays],
-               spws=[Ids.gid(ids.spw, s._description) for s in c.spectral_windows],
+    got = dict(subs=[ids.struct_id('sub', sub_key(s)) for s in c.subarrays],
+               spws=[ids.struct_id('spw', spw_key(s)) for s in c.spectral_windows],
                cat=[Ids.gid(ids.tdesc, t.description) for t in c.catalogue.targets])
     for key, sv, mv, text in (('subs', s_subs, m_subs, 'subarrays'), ('spws', s_spws, m_spws, 'spectral windows'),
                               ('cat', s_cat, m_cat, 'targets')):
@@ -370,6 +492,8 @@ def stage_open(cs, parts, twins_info, c, exc, out, names, how):
             cs.disagree('stage=open;what=part_sensors_vs_model:%s' % ','.join(which), gotp, exp,
                         'index sensors written back into part %d differ from the model' % i, kind='tie', part=i)
     # every other sensor: whole series, and the selected values under a time mask
+    dead = set()
+    cs.sorted_twins = [i for st in s_starts for i in range(len(twins_info)) if starts.index(twins_info[i]['start']) == st]
     eff = [bool(a and b) for a, b in zip(gen['keep'], s_keep0)]
     with warnings.catch_warnings():
         warnings.simplefilter('ignore')
@@ -378,7 +502,31 @@ def stage_open(cs, parts, twins_info, c, exc, out, names, how):
             try:
                 x = read_sensor(c, n, ids)
             except Exception as e:      # noqa: BLE001
-                x = ('raised', repr(e))
+                x = ('raised', repr(e), type(e).__name__)
+            if cs.uns[j] and cs.lacks[j]:
+                # unsigned integer type, missing from a part: finding C19-F4 (dummy_sensor_getter: np.uint8(-1))
+                dead.add(j)
+                if x is not None and x[0] == 'raised':
+                    ctx.disagree('stage=sensor;what=unsigned_missing_raises;exc=%s' % x[2], cs.doc(name=n), x[1], ms,
+                                 'a sensor of an unsigned integer type that some part lacks cannot be read from the concatenation',
+                                 spec=ss[0] if ss else None)
+                    if ms != [3]:
+                        cs.disagree('stage=sensor;what=unsigned_vs_model;name=%s' % short_name(n), x[1], ms, 'model answers', kind='tie')
+                elif x is not None:
+                    # (a repaired dummy_sensor_getter) the parts that have it as they are, ONE filler value elsewhere
+                    per_dump = x[2] if x[0] == 'num' else expand_wire(x[2])
+                    segs_ = [int(v) for v in c._segments]
+                    okv = ss and len(per_dump) == len(ss[0])
+                    for pi, sidx in enumerate(cs.sorted_twins):
+                        if not okv:
+                            break
+                        a, b = per_dump[segs_[pi]:segs_[pi + 1]], ss[0][segs_[pi]:segs_[pi + 1]]
+                        okv = (a == b) if twins_info[sidx]['sens'][n] is not None else len(set(a)) == 1
+                    if not okv:
+                        cs.disagree('stage=sensor;what=values;name=%s' % short_name(n), per_dump, ms,
+                                    'sensor is not the concatenation of the parts with dummy fill', spec=ss[0] if ss else None)
+                    ctx.count('unsigned_missing_filled')
+                continue
             if x is None:
                 if ss:
                     cs.disagree('stage=sensor;what=keyerror;name=%s' % short_name(n), 'KeyError', ms,
@@ -407,7 +555,7 @@ def stage_open(cs, parts, twins_info, c, exc, out, names, how):
                 if got_keep != eff:
                     cs.disagree('stage=sensor;what=mask', got_keep, eff, 'select(dumps=mask) did not AND the mask into the default selection')
                 for j, n in enumerate(names):
-                    if not s_sens[j]:
+                    if not s_sens[j] or j in dead:
                         continue
                     try:
                         v = c.sensor[n]
@@ -641,6 +789,66 @@ class MergedObservation(c02.DataSetObservation):
             self.name_ids[k] = name_ids.setdefault(k, len(name_ids))
 
 
+class _Whole:
+    """What C02's DataSetObservation reads, for the whole after select(subarray=s, spw=w): that subarray, that
+    window, the UNSELECTED sensors."""
+
+    class _Sensors:
+        def __init__(self, c):
+            self.c = c
+            self.timestamps = c.sensor.timestamps
+
+        def __getitem__(self, name):
+            return np.asarray(self.c.sensor.get(name)[:])
+
+    def __init__(self, c, s, w):
+        self.sensor = _Whole._Sensors(c)
+        self.dump_period = c.dump_period
+        self.subarrays, self.spectral_windows = [c.subarrays[s]], [c.spectral_windows[w]]
+        self.catalogue = c.catalogue
+
+    def select(self, **kw):
+        pass
+
+
+class MultiObservation(MergedObservation):
+    """C02's view of the concatenation after select(subarray=s, spw=w); antenna ids are case-wide (ANT_IDS)."""
+
+    def __init__(self, c, name_ids, s, w):
+        super().__init__(_Whole(c, s, w), name_ids)
+        self.d, self.s, self.w = c, s, w
+        assert [a for a in ANT_IDS if a in self.spec['ants']] == self.spec['ants'], 'antennas outside the harness vocabulary / order'
+        import katpoint
+        mine = {a.name: a for a in self.kants}
+        self.spec['ants'] = list(ANT_IDS)
+        self.kants = [mine.get(n) or katpoint.Antenna('%s, -30:42:39.8, 21:26:38.0, 1086.6, 13.5, 0 0 0' % n) for n in ANT_IDS]
+
+    def fresh(self):
+        d = self.d
+        d.select()
+        d.select(subarray=self.s, spw=self.w)
+        d.select(weights='all', flags='all')
+        d._selection = {'spw': self.w, 'subarray': self.s}
+        return d
+
+
+def fz_of(spw):
+    """channel frequencies in quarter-channel units, as C02's DataSetObservation takes them"""
+    w = float(spw.channel_width) / 4
+    freqs = np.asarray(spw.channel_freqs, dtype=float)
+    fz = (freqs - (float(freqs.min()) - 8 * w)) / w
+    assert np.all(fz == np.round(fz)), 'channel frequencies are not on the quarter-channel grid'
+    return [int(x) for x in fz]
+
+
+def menv_wire(ob, ids, name_ids, twins):
+    """Model/ConcatMulti.v menv: targets by global id, half dump, half channel, channel frequencies by spw value id,
+    subarray structures by subarray value id (entries: one per raw table position)"""
+    table = env_wire(ob, ids, name_ids)[0]
+    by_key = {spw_key(tw.spectral_windows[0]): fz_of(tw.spectral_windows[0]) for tw in twins}
+    return [table, 2, 2, [by_key[k] for k in ids.raw['spw']], [ids.sub_wire(k) for k in ids.raw['sub']]]
+
+
 def env_wire(ob, ids, name_ids):
     import katpoint
     table = []
@@ -684,30 +892,73 @@ def observe_masks(d):
     return [[int(x) for x in d._time_keep], [int(x) for x in d._freq_keep], [int(x) for x in d._corrprod_keep]]
 
 
-def stage_select(cs, c, parts, twins, twins_info, twins_arrays, sorted_idx, wire_parts, names, nhist):
+def stage_select(cs, c, parts, twins, twins_info, twins_arrays, sorted_idx, wire_parts, names, nhist, sw=None):
+    """sw = None: the concatenation has one subarray and one spectral window (wire_191).  sw = (s, w): histories
+    after select(subarray=s, spw=w) on a concatenation with several (wire_193): the parts of that subarray and window
+    against the translated calls on their stand-alone twins, the other parts must be deselected entirely."""
     ctx, gen = cs.ctx, cs.gen
     ids = cs.ids
     name_ids = {}
-    ob = MergedObservation(c, name_ids)
-    env = env_wire(ob, ids, name_ids)
-    hrng = random.Random(gen['hseed'])
-    histories = [[c02.gen_call(hrng, ob) for _ in range(hrng.randint(1, 6))] for _ in range(nhist)]
-    outs = ctx.model([[191, [wire_parts, env, [c02.wire_call(cl) for cl in h]]] for h in histories])
+    tag = 'select' if sw is None else 'multi'
+    hrng = random.Random(gen['hseed'] + (0 if sw is None else 7919 * (1 + sw[0]) + 104729 * (1 + sw[1])))
+    if sw is None:
+        ob = MergedObservation(c, name_ids)
+        env = env_wire(ob, ids, name_ids)
+        histories = [[c02.gen_call(hrng, ob) for _ in range(hrng.randint(1, 6))] for _ in range(nhist)]
+        outs = ctx.model([[191, [wire_parts, env, [c02.wire_call(cl) for cl in h]]] for h in histories])
+        members = list(range(len(sorted_idx)))
+    else:
+        ob = MultiObservation(c, name_ids, sw[0], sw[1])
+        env = menv_wire(ob, ids, name_ids, twins)
+        histories = [[[x for x in c02.gen_call(hrng, ob) if x[0] not in ('spw', 'subarray')] for _ in range(hrng.randint(1, 5))]
+                     for _ in range(nhist)]
+        # every run meets every criterion that reads the subarray's product list / the window's channels, on every pair
+        battery = []
+        for key in ('pol', 'ants', 'inputs', 'corrprods', 'freqrange'):
+            v, wv, f = c02.gen_criterion(hrng, ob, key)
+            battery.append([(key, v, wv, f)])
+        histories.append(battery)
+        outs = ctx.model([[193, [wire_parts, env, sw[0], sw[1], [c02.wire_call(cl) for cl in h]]] for h in histories])
+        members, keeps = [], None
+        for out in outs:
+            if out[0] == 0:
+                members = [pi for pi, b in enumerate(out[3]) if b]
+                keeps = (out[1], out[2])
+                break
+        outs = [[o[0], o[4]] if o[0] == 0 else o for o in outs]
     cat = [Ids.gid(ids.tdesc, t.description) for t in c.catalogue.targets]
     segs = [int(x) for x in c._segments]
     so = np.cumsum([0] + [len(twins_info[i]['Observation/scan_index'][0]) for i in sorted_idx]).tolist()
     co = np.cumsum([0] + [len(twins_info[i]['Observation/compscan_index'][0]) for i in sorted_idx]).tolist()
     for hn, (h, out) in enumerate(zip(histories, outs)):
         if out[0] != 0:
-            cs.disagree('stage=select;what=model_cannot_open', 'opened', out, 'model refuses an opened concatenation', kind='tie')
+            cs.disagree('stage=%s;what=model_cannot_open' % tag, 'opened', out, 'model refuses an opened concatenation', kind='tie')
             return
         steps = out[1]
         d = ob.fresh()
+        if sw is not None and hn == 0:
+            got0 = [int(x) for x in d._time_keep]
+            if got0 != keeps[1]:
+                cs.disagree('stage=multi;keys=-;what=time_mask', got0, keeps[0],
+                            'select(subarray=s, spw=w) does not keep exactly the dumps of that subarray and spectral window',
+                            spec=keeps[1], subarray=sw[0], spw=sw[1])
+                return ob
+            if keeps[0] != keeps[1]:
+                cs.disagree('stage=multi;keys=-;what=time_mask_vs_model', got0, keeps[0], 'model differs from its spec', kind='tie',
+                            subarray=sw[0], spw=sw[1])
+                return ob
+            ctx.traces_validated += 1
+            ctx.note_case((cs.cseed, 'multi', sw), nontrivial=len(sorted_idx) >= 2,
+                          sample=dict(fmt=cs.fmt, kind=gen['kind'], subarray=sw[0], spw=sw[1], members=members, kept=got0))
+            if not members:
+                return ob       # no part has this combination: nothing is selected, nothing else to compare
         tws = []
-        for i in sorted_idx:
+        for pi, i in enumerate(sorted_idx):
             tw = twins[i]
             tw.select()
             tw.select(weights='all', flags='all')
+            if pi not in members:
+                tw.select(dumps=np.zeros(len(tw.sensor.timestamps), dtype=bool))
             tw._selection = {'spw': 0, 'subarray': 0}
             tws.append(tw)
         fw_touched = False
@@ -716,6 +967,8 @@ def stage_select(cs, c, parts, twins, twins_info, twins_arrays, sorted_idx, wire
                 break
             mo, pm, trc = steps[n]
             at = dict(history=[c02.describe_call(x) for x in h[:n + 1]], step=n, hn=hn)
+            if sw is not None:
+                at.update(subarray=sw[0], spw=sw[1])
             keys = '+'.join(sorted(k for (k, v, w, f) in call)) or '-'
             exc = None
             try:
@@ -730,7 +983,7 @@ def stage_select(cs, c, parts, twins, twins_info, twins_arrays, sorted_idx, wire
                 ctx.count('key=' + k)
             icode = 0 if exc is None else (1 if isinstance(exc, TypeError) and 'unexpected keyword' in str(exc) else 2)
             if icode != mo[0]:
-                cs.disagree('stage=select;keys=%s;what=status impl=%d model=%d' % (keys, icode, mo[0]), repr(exc) if exc else 'ok', mo[0],
+                cs.disagree('stage=' + tag + ';keys=%s;what=status impl=%d model=%d' % (keys, icode, mo[0]), repr(exc) if exc else 'ok', mo[0],
                             'implementation and model disagree on whether the call on the whole is accepted', kind='tie', **at)
                 break
             if icode == 2:
@@ -738,15 +991,16 @@ def stage_select(cs, c, parts, twins, twins_info, twins_arrays, sorted_idx, wire
             if icode == 1:
                 continue
             got = observe_masks(d)
-            if got != [mo[1], mo[2], mo[3]]:
-                cs.disagree('stage=select;keys=%s;what=whole_masks_vs_model' % keys, got, [mo[1], mo[2], mo[3]],
+            whole_off = got != [mo[1], mo[2], mo[3]]
+            if whole_off:
+                # the history ends here, but first the parts are compared with their twins: that is the property
+                cs.disagree('stage=' + tag + ';keys=%s;what=whole_masks_vs_model' % keys, got, [mo[1], mo[2], mo[3]],
                             'selection masks of the whole differ from the model', kind='tie', **at)
-                break
             cur = c02.observe(ob, d)
-            exp = c02.expected_from_masks(ob, mo[1], mo[2], mo[3])
+            exp = c02.expected_from_masks(ob, got[0], got[1], got[2])
             badk = [k for k in c02.PUBLIC if cur[k] != exp[k]]
             if badk:
-                cs.disagree('stage=select;keys=%s;what=public:%s' % (keys, ','.join(badk)), {k: cur[k] for k in badk},
+                cs.disagree('stage=' + tag + ';keys=%s;what=public:%s' % (keys, ','.join(badk)), {k: cur[k] for k in badk},
                             {k: exp[k] for k in badk}, 'public attributes of the whole differ from its masks', **at)
             # ---- the parts
             ok = True
@@ -756,9 +1010,16 @@ def stage_select(cs, c, parts, twins, twins_info, twins_arrays, sorted_idx, wire
                 tks.append(part_masks[0])
                 seg_mask = got[0][segs[pi]:segs[pi + 1]]
                 if part_masks != [seg_mask, got[1], got[2]]:
-                    cs.disagree('stage=select;keys=%s;what=part_view' % keys, part_masks, [seg_mask, got[1], got[2]],
+                    cs.disagree('stage=' + tag + ';keys=%s;what=part_view' % keys, part_masks, [seg_mask, got[1], got[2]],
                                 'a part does not hold its slice of the global masks', part=pi, **at)
                     ok = False
+                    continue
+                if pi not in members:
+                    if any(seg_mask):
+                        cs.disagree('stage=multi;keys=%s;what=foreign_part_selected' % keys, seg_mask, None,
+                                    'dumps of a part of ANOTHER subarray / spectral window are selected',
+                                    spec=[0] * len(seg_mask), part=pi, **at)
+                        ok = False
                     continue
                 dm = None
                 for kv in trc[pi]:
@@ -774,33 +1035,33 @@ def stage_select(cs, c, parts, twins, twins_info, twins_arrays, sorted_idx, wire
                 except Exception as e:      # noqa: BLE001
                     texc = e
                 if texc is not None:
-                    cs.disagree('stage=select;keys=%s;what=twin_raises' % keys, repr(texc), pm[pi],
+                    cs.disagree('stage=' + tag + ';keys=%s;what=twin_raises' % keys, repr(texc), pm[pi],
                                 'the translated call raises on the stand-alone part', part=pi, tcall=repr(tcall), **at)
                     ok = False
                     continue
                 twm = observe_masks(tw)
                 if twm != part_masks:
                     dims = ''.join(x for x, a, b in zip('TFB', twm, part_masks) if a != b)
-                    cs.disagree('stage=select;keys=%s;what=part_differs_from_standalone:%s' % (keys, dims), part_masks, pm[pi][1:],
+                    cs.disagree('stage=' + tag + ';keys=%s;what=part_differs_from_standalone:%s' % (keys, dims), part_masks, pm[pi][1:],
                                 'the whole selects in a part something else than the translated criteria select on the part alone',
                                 spec=twm, part=pi, tcall=repr(tcall), **at)
                     ok = False
-                elif pm[pi][0] != 0 or twm != pm[pi][1:]:
-                    cs.disagree('stage=select;keys=%s;what=part_vs_model' % keys, twm, pm[pi], 'part masks differ from the model', kind='tie',
+                elif not whole_off and (pm[pi][0] != 0 or twm != pm[pi][1:]):
+                    cs.disagree('stage=' + tag + ';keys=%s;what=part_vs_model' % keys, twm, pm[pi], 'part masks differ from the model', kind='tie',
                                 part=pi, **at)
                     ok = False
-            if not ok:
+            if not ok or whole_off:
                 break
             kept_parts = sum(1 for t in tks if any(t))
-            ctx.note_case((cs.cseed, hn, n), nontrivial=len(tks) >= 2 and kept_parts >= 2 and not all(got[0]),
+            ctx.note_case((cs.cseed, hn, n) if sw is None else (cs.cseed, 'multi', sw, hn, n), nontrivial=len(tks) >= 2 and kept_parts >= 2 and not all(got[0]),
                           sample=dict(fmt=cs.fmt, parts=[p['T'] for p in gen['parts']], order=gen['order'],
                                       history=at['history'], dumps=[int(x) for x in d.dumps]) if n == len(h) - 1 else None)
             # ---- data and sensors under this selection
             fw_touched = fw_touched or any(k in ('flags', 'weights') for (k, v, w, f) in call)
-            stage_data(cs, d, [twins_arrays[i] for i in sorted_idx], (tks, got[1], got[2]), hrng, 2, 'after=select',
-                       tws=tws, fw_touched=fw_touched)
+            stage_data(cs, d, [twins_arrays[i] for i in sorted_idx], (tks, got[1], got[2]), hrng, 2, 'after=' + tag,
+                       tws=[tw for pi, tw in enumerate(tws) if pi in members], fw_touched=fw_touched)
             if hrng.random() < 0.5:
-                check_selected_sensors(cs, d, [twins[i] for i in sorted_idx], tws, names, at)
+                check_selected_sensors(cs, d, [twins[i] for i in sorted_idx], [tw for pi, tw in enumerate(tws) if pi in members], names, at)
     return ob
 
 
@@ -824,6 +1085,182 @@ def check_selected_sensors(cs, d, twins_sorted, tws, names, at):
 
 
 # ---------------------------------------------------------------------------------------------------------------
+# stage 3b: several subarrays / spectral windows: select(subarray=s, spw=w, **criteria) against the parts alone
+
+def multi_criteria(rng, tw, T):
+    """criteria that need no index translation (names, masks over products / channels of the part's own subarray)"""
+    cps = [(str(a), str(b)) for a, b in tw.subarrays[0].corr_products]
+    B, F = len(cps), int(tw.spectral_windows[0].num_chans)
+    inputs = sorted({x for cp in cps for x in cp})
+    ants = sorted({x[:-1] for x in inputs})
+    freqs = np.asarray(tw.spectral_windows[0].channel_freqs, dtype=float)
+    cw = float(tw.spectral_windows[0].channel_width)
+    pool = [dict(pol=rng.choice(['hh', 'vv', 'hv', 'vh', 'h', 'v'])), dict(pol=rng.sample(['hh', 'vv', 'hv', 'vh'], 2)),
+            dict(corrprods=rng.choice(['cross', 'auto'])), dict(corrprods=sorted(rng.sample(range(B), min(B, 3)))),
+            dict(corrprods=[bool(rng.random() < 0.5) for _ in range(B)]), dict(corrprods=[list(rng.choice(cps))]),
+            dict(ants=rng.choice(ants)), dict(ants='~' + rng.choice(ants)), dict(inputs=rng.sample(inputs, min(3, len(inputs)))),
+            dict(channels=slice(rng.randrange(F), None)), dict(channels=[rng.randrange(F)]),
+            dict(freqrange=(float(freqs.min()) + cw * rng.choice([-1, 0.6, 1]), float(freqs.max()) + cw)),
+            dict(targets=rng.choice(['A', 'B', 'Cee', 'Dd', 'nope'])), dict(scans=rng.choice(['track', '~slew', 'scan'])),
+            dict(compscans=rng.choice(['track', 'cal', '~raster'])), dict(target_tags=rng.choice(['gaincal', 'target', 'bpcal']))]
+    out = [{}]
+    for _ in range(2):
+        kw = {}
+        for x in rng.sample(pool, rng.randint(1, 3)):
+            kw.update(x)
+        out.append(kw)
+    if rng.random() < 0.5:
+        out[-1]['dumps'] = [bool(rng.random() < 0.7) for _ in range(T)]
+    return out
+
+
+def stage_multi_plain(cs, c, twins, arrays, sorted_idx, rng, mkeeps=None):
+    """format mixtures (timestamps of v3 and v4 parts are not on one dump grid: no C02 observation): select(subarray=s,
+    spw=w, **criteria that need no index translation) on the whole against the same criteria on the parts alone"""
+    ctx = cs.ctx
+    segs = [int(x) for x in c._segments]
+    T = segs[-1]
+    tws = [twins[i] for i in sorted_idx]
+    arrs = [arrays[i] for i in sorted_idx]
+    same_shape = len({a['vis'].shape[1:] for a in arrs}) == 1
+    subs, spws = [], []
+    for tw in tws:
+        for k, lst in ((sub_key(tw.subarrays[0]), subs), (spw_key(tw.spectral_windows[0]), spws)):
+            if k not in lst:
+                lst.append(k)
+    where = [(subs.index(sub_key(tw.subarrays[0])), spws.index(spw_key(tw.spectral_windows[0]))) for tw in tws]
+    nS, nW = len(c.subarrays), len(c.spectral_windows)
+    if (nS, nW) != (len(subs), len(spws)):
+        return          # reported by stage_open
+    for what, kw in (('subarray', dict(subarray=nS)), ('spw', dict(spw=nW))):
+        try:
+            c.select(**kw)
+            cs.disagree('stage=multimix;what=%s_out_of_range_accepted' % what, 'selected', 'IndexError',
+                        'a %s index beyond the merged list is accepted' % what, spec='IndexError', kwargs=repr(kw))
+        except IndexError:
+            pass
+        except Exception as e:      # noqa: BLE001
+            cs.disagree('stage=multimix;what=%s_out_of_range_raises' % what, repr(e), 'IndexError',
+                        'a %s index beyond the merged list does not raise IndexError' % what, spec='IndexError', kwargs=repr(kw))
+    for s in range(nS):
+        for w in range(nW):
+            members = [pi for pi, sw in enumerate(where) if sw == (s, w)]
+            ref = tws[members[0]] if members else tws[0]
+            for kw in (multi_criteria(rng, ref, T) if members else [{}]):
+                keys = '+'.join(sorted(kw)) or '-'
+                at = dict(subarray=s, spw=w, kwargs=repr(kw))
+                try:
+                    with warnings.catch_warnings():
+                        warnings.simplefilter('ignore')
+                        c.select()
+                        c.select(subarray=s, spw=w, **kw)
+                except Exception as e:      # noqa: BLE001
+                    cs.disagree('stage=multimix;keys=%s;what=raises' % keys, repr(e), None,
+                                'select(subarray=, spw=, ...) on the whole raised', **at)
+                    continue
+                ctx.traces_validated += 1
+                ctx.count('multi_select_calls')
+                got = observe_masks(c)
+                if mkeeps is not None and not kw:
+                    if got[0] != mkeeps[0][s][w]:
+                        cs.disagree('stage=multimix;keys=-;what=time_mask', got[0], mkeeps[0][s][w],
+                                    'select(subarray=s, spw=w) does not keep exactly the dumps of that subarray and window',
+                                    spec=mkeeps[1][s][w], **at)
+                        continue
+                    if mkeeps[0][s][w] != mkeeps[1][s][w]:
+                        cs.disagree('stage=multimix;keys=-;what=model_vs_spec', mkeeps[0][s][w], mkeeps[1][s][w],
+                                    'model differs from its spec', kind='tie', **at)
+                tks, ok = [], True
+                for pi, tw in enumerate(tws):
+                    seg_mask = got[0][segs[pi]:segs[pi + 1]]
+                    part_masks = observe_masks(c.datasets[pi])
+                    if part_masks != [seg_mask, got[1], got[2]]:
+                        cs.disagree('stage=multimix;keys=%s;what=part_view' % keys, part_masks, [seg_mask, got[1], got[2]],
+                                    'a part does not hold its slice of the global masks', part=pi, **at)
+                        ok = False
+                        break
+                    if pi not in members:
+                        exp_t = [0] * len(seg_mask)
+                        if seg_mask != exp_t:
+                            cs.disagree('stage=multimix;keys=%s;what=foreign_part_selected' % keys, seg_mask, None,
+                                        'dumps of a part of ANOTHER subarray / spectral window are selected', spec=exp_t, part=pi, **at)
+                            ok = False
+                        tks.append(seg_mask)
+                        continue
+                    tkw = dict(kw)
+                    if 'dumps' in tkw:
+                        tkw['dumps'] = np.array(tkw['dumps'][segs[pi]:segs[pi + 1]], dtype=bool)
+                    with warnings.catch_warnings():
+                        warnings.simplefilter('ignore')
+                        tw.select()
+                        tw.select(**tkw)
+                    twm = observe_masks(tw)
+                    tks.append(seg_mask)
+                    if twm != [seg_mask, got[1], got[2]]:
+                        dims = ''.join(x for x, a, b in zip('TFB', twm, [seg_mask, got[1], got[2]]) if a != b)
+                        cs.disagree('stage=multimix;keys=%s;what=part_differs_from_standalone:%s' % (keys, dims), [seg_mask, got[1], got[2]], None,
+                                    'the whole selects in a part something else than the same criteria select on the part alone',
+                                    spec=twm, part=pi, **at)
+                        ok = False
+                        continue
+                    pub = dict(corr_products=[(str(a), str(b)) for a, b in c.corr_products] == [(str(a), str(b)) for a, b in tw.corr_products],
+                               channel_freqs=nan_eq(c.channel_freqs, tw.channel_freqs), channel_width=c.channel_width == tw.channel_width,
+                               ants=[a.description for a in c.ants] == [a.description for a in tw.ants],
+                               inputs=list(c.inputs) == list(tw.inputs))
+                    badk = sorted(k for k, v in pub.items() if not v)
+                    if badk:
+                        cs.disagree('stage=multimix;keys=%s;what=public:%s' % (keys, ','.join(badk)),
+                                    {k: np.asarray(getattr(c, k)).tolist() if k != 'ants' else [a.description for a in c.ants] for k in badk}, None,
+                                    'the whole labels the columns / channels of a part differently from the part itself',
+                                    spec={k: np.asarray(getattr(tw, k)).tolist() if k != 'ants' else [a.description for a in tw.ants] for k in badk},
+                                    part=pi, **at)
+                        ok = False
+                ctx.note_case((cs.cseed, 'multi', s, w, keys), nontrivial=len(members) >= 1 and len(tws) >= 2,
+                              sample=dict(fmt=cs.fmt, kind=cs.gen['kind'], subarray=s, spw=w, members=members, kwargs=repr(kw)))
+                if ok and same_shape and members and any(got[1]) and any(got[2]):
+                    full_arrays(cs, c, arrs, (tks, got[1], got[2]), 'after=multi')
+    with warnings.catch_warnings():
+        warnings.simplefilter('ignore')
+        c.select()
+        c.select(subarray=0, spw=0)
+        for tw in tws:
+            tw.select()
+
+
+def stage_multi(cs, c, parts, twins, infos, arrays, sorted_idx, wire_parts, names, nhist):
+    """concatenations with several subarrays / spectral windows: for every pair (s, w) of the merged lists,
+    select(subarray=s, spw=w) and select histories from there (stage_select with wire_193); indices beyond the merged
+    lists must raise IndexError"""
+    ctx = cs.ctx
+    nS, nW = len(c.subarrays), len(c.spectral_windows)
+    for what, kw in (('subarray', dict(subarray=nS)), ('spw', dict(spw=nW))):
+        try:
+            c.select(**kw)
+            cs.disagree('stage=multi;what=%s_out_of_range_accepted' % what, 'selected', 'IndexError',
+                        'a %s index beyond the merged list is accepted' % what, spec='IndexError', kwargs=repr(kw))
+        except IndexError:
+            pass
+        except Exception as e:      # noqa: BLE001
+            cs.disagree('stage=multi;what=%s_out_of_range_raises' % what, repr(e), 'IndexError',
+                        'a %s index beyond the merged list does not raise IndexError' % what, spec='IndexError', kwargs=repr(kw))
+    out = ctx.model([[193, [wire_parts, [[], 2, 2, [], []], nS, 0, []]], [193, [wire_parts, [[], 2, 2, [], []], 0, nW, []]]])
+    if [o[0] for o in out] != [8, 8]:
+        cs.disagree('stage=multi;what=out_of_range_vs_model', 'IndexError', [o[0] for o in out], 'model accepts an index beyond the merged lists', kind='tie')
+    for s in range(nS):
+        for w in range(nW):
+            if cs.bad:
+                break
+            stage_select(cs, c, parts, twins, infos, arrays, sorted_idx, wire_parts, names, nhist, sw=(s, w))
+            ctx.count('multi_pairs')
+    with warnings.catch_warnings():
+        warnings.simplefilter('ignore')
+        c.select()
+        c.select(subarray=0, spw=0)
+        for tw in twins:
+            tw.select()
+
+
+# ---------------------------------------------------------------------------------------------------------------
 # one case
 
 def run_case(ctx, cseed, gen=None, stages=('open', 'data', 'select', 'scans', 'order')):
@@ -843,6 +1280,11 @@ def run_case(ctx, cseed, gen=None, stages=('open', 'data', 'select', 'scans', 'o
             twins = [p.fresh() for p in parts]
             infos = [read_part(d, names, ids) for d in twins]
             arrays = [read_arrays(d) for d in twins]
+            ids.finish(cs)
+            for info in infos:
+                for n, which in (('Observation/subarray', 'sub'), ('Observation/spw', 'spw')):
+                    info[n + ':raw'] = list(info[n][0])
+                    info[n][0] = [ids.canon[which][r] for r in info[n][0]]
             for i, (tw, info) in enumerate(zip(twins, infos)):
                 if info['catalogue'] != info['Observation/target'][0]:
                     cs.disagree('stage=twin;what=catalogue_is_not_target_values', info['catalogue'], info['Observation/target'][0],
@@ -857,7 +1299,9 @@ def run_case(ctx, cseed, gen=None, stages=('open', 'data', 'select', 'scans', 'o
             cs.t_epoch = t_epoch = min(o['ts'][0] for o in infos)
             order = gen['order']
             wire_parts = [part_wire(infos[i], t_epoch, unit, starts, dps, names) for i in order]
-            wnames = [[j, 0] for j in range(len(names))]
+            cs.uns = [any(o['sens'][n] is not None and o['sens'][n][3] == 'u' for o in infos) for n in names]
+            cs.lacks = [any(o['sens'][n] is None for o in infos) and any(o['sens'][n] is not None for o in infos) for n in names]
+            wnames = [[j, 0, int(cs.uns[j])] for j in range(len(names))]
             out = ctx.model([[19, [wire_parts, wnames, [int(x) for x in gen['keep']]]]])[0]
             c, exc, how = None, None, ''
             try:
@@ -897,6 +1341,11 @@ def run_case(ctx, cseed, gen=None, stages=('open', 'data', 'select', 'scans', 'o
                 ob = stage_select(cs, c, parts, twins, infos, arrays, sorted_idx, wp_sorted, names, ctx.scale(2, 4))
             if 'scans' in stages and single and cs.bad == 0 and ob is not None:
                 stage_scans(cs, ob, drng)
+            if 'select' in stages and not single and cs.bad == 0 and gen['mixed']:
+                stage_multi_plain(cs, c, twins, arrays, sorted_idx, drng)
+            if 'select' in stages and not single and cs.bad == 0 and same_shape and not gen['mixed']:
+                wp = [part_wire(infos[i], t_epoch, unit, starts, dps, names) for i in order]
+                stage_multi(cs, c, parts, twins, infos, arrays, sorted_idx, wp, names, ctx.scale(1, 2))
     finally:
         for p in parts:
             p.close()
@@ -915,8 +1364,8 @@ def expand_index(w):
 def summary(c, ids, names):
     """Everything the property constrains about an opened concatenation, canonical (for the input-order comparison)."""
     out = dict(ts=np.asarray(c.sensor.timestamps[:]).tolist(), shape=[int(x) for x in c.shape],
-               cat=[t.description for t in c.catalogue.targets], subs=[s._description for s in c.subarrays],
-               spws=[s._description for s in c.spectral_windows], dumps=[int(x) for x in c.dumps])
+               cat=[t.description for t in c.catalogue.targets], subs=[sub_key(s) for s in c.subarrays],
+               spws=[spw_key(s) for s in c.spectral_windows], dumps=[int(x) for x in c.dumps])
     for n in OBS:
         out[n] = cd_wire(c.sensor.get(n), lambda v, n=n: obs_vid(ids, n, v))
     for n in names:
@@ -980,14 +1429,15 @@ def run(ctx):
     for f in ctx.findings:
         w = f['witness']
         run_case(ctx, w.get('cseed', 0), gen=w.get('gen'))
-    n = ctx.scale(70, 1100)
+    n = ctx.scale(62, 1000)
     seeds = [ctx.rng.randrange(1 << 30) for _ in range(n)]
     kinds = {}
     for cseed in seeds:
         cs = run_case(ctx, cseed)
         kinds[cs.gen['kind']] = kinds.get(cs.gen['kind'], 0) + 1
     # every run meets every special kind of case a few times, whatever the seed
-    quota = {'period': ctx.scale(4, 40), 'tie': ctx.scale(2, 20), 'subarray': ctx.scale(3, 30), 'spw': ctx.scale(3, 30)}
+    quota = {'period': ctx.scale(4, 40), 'tie': ctx.scale(2, 20), 'subarray': ctx.scale(2, 30), 'spw': ctx.scale(2, 30),
+             'subperm': ctx.scale(3, 30), 'subdesc': ctx.scale(2, 20), 'spwvar': ctx.scale(3, 30), 'multi': ctx.scale(3, 40)}
     tries = 0
     while any(kinds.get(k, 0) < q for k, q in quota.items()) and tries < 20000:
         tries += 1
@@ -1022,7 +1472,20 @@ def incoq(ctx, seeds):
                            cdw([rng.randrange(4) for _ in range(3)]), cdw([0, 1, 2]), cdw([0, 1]),
                            [list(range(len(sev))), list(range(len(sev))), sev + [T]], [[0], [0], [0, T]],
                            [[0, 0, 1, [rng.randrange(5) for _ in range(T)]]] if rng.random() < 0.6 else []])
-        cases.append([19, [wparts, [[0, 0]], [int(x) for x in gen['keep']]]])
+        cases.append([19, [wparts, [[0, 0, int(rng.random() < 0.3)]], [int(x) for x in gen['keep']]]])
+        # identity of subarrays / spectral windows (wire_194) on small random tables with repeats
+        cps = [[a, p, b, q] for a in (0, 1) for p in (0, 1) for b in (0, 1) for q in (0, 1)]
+        subs = [[[40, 41][:rng.randint(1, 2)], rng.sample(cps, 3)] for _ in range(3)]
+        subs += [rng.choice(subs), [subs[0][0], subs[0][1][::-1]]]
+        spws = [[rng.randrange(2), rng.randrange(2), 4, 1, rng.randrange(2), rng.randrange(2), 7] for _ in range(5)]
+        cases.append([194, [subs, spws]])
+        # select(subarray=, spw=) on a two-subarray concatenation (wire_193), a short history
+        if len(wparts) >= 2:
+            mp = [list(w) for w in wparts]
+            mp[0][3] = [[1], [0], [0, gen['parts'][0]['T']]]
+            menv = [[[[1], [1]], [[2], [2]], [[3], [1]], [[4], [2]]], 2, 2, [[8, 12], [8, 12]], subs[:2]]
+            calls = [[[[ord(ch) for ch in 'pol'], [9, [[0, 0]]]]], [[[ord(ch) for ch in 'scans'], [2, [[1, 1]]]]]]
+            cases.append([193, [mp, menv, rng.randrange(2), 0, calls]])
     with core.BuildLock():
         tg = ' '.join(x[:-2] + '.vo' for x in core.coq_sources() if x.startswith(('Base/', 'Gen/', 'Model/')))
         core.sh('timeout 1500 make -j4 %s' % tg, cwd=core.COQ, timeout=1600)
